@@ -245,7 +245,7 @@ def run_shard(mod, ctx: Ctx, shard: int, max_examples: int, confirmed_buckets=()
             first = h not in seen_cases
             seen_cases.add(h)
             try:
-                out = mod.evaluate(case)
+                out = safe_evaluate(mod, case)
             except Violation as v:
                 if v.bucket() in confirmed:
                     stats.excluded[v.bucket()] = stats.excluded.get(v.bucket(), 0) + 1
@@ -282,6 +282,19 @@ def run_shard(mod, ctx: Ctx, shard: int, max_examples: int, confirmed_buckets=()
     return stats
 
 
+def safe_evaluate(mod, case):
+    """evaluate; an exception the check did not classify itself is a violation when the code under test is on the
+    stack (bucket: type + innermost phyclone frame), otherwise it propagates as a harness error (exit 2)"""
+    try:
+        return mod.evaluate(case)
+    except (Violation, HarnessError):
+        raise
+    except Exception as e:
+        if phyclone_frame(e) is None:
+            raise
+        raise crash_violation("uncaught", e)
+
+
 def greedy_shrink(mod, case, v, max_evals=40):
     """structural delta-debugging for expensive checks: adopt any smaller candidate that fails in the same bucket"""
     evals = 0
@@ -291,7 +304,7 @@ def greedy_shrink(mod, case, v, max_evals=40):
         for cand in mod.shrink_candidates(case):
             evals += 1
             try:
-                mod.evaluate(cand)
+                safe_evaluate(mod, cand)
             except Violation as v2:
                 if v2.bucket() == v.bucket():
                     case, v, progress = cand, v2, True
